@@ -104,8 +104,18 @@ def run_case(ctx, case, corr):
             flags.append(ev[1])
             sessions.append(make_session(bool(ev[1]), files, twin, log, len(sessions)))
             evs.append("(create %d)" % ev[1])
-    corr.append(("sess-run (%s) (%s)" % (" ".join(str(c) for c in case["process"]), " ".join(evs)),
-                 "(" + " ".join(impl) + ")", dict(case)))
+    # The model stores the answer of every pre-fetch; requests_cache stores 200 answers only.  A consolidation whose
+    # FIRST file has a dimension without a variable of that name gets an error answer to that pre-fetch (nothing is
+    # stored, later reads miss): the status of the pre-fetch answer is not modelled (design_notes/C18.md), such
+    # histories are judged by the direct oracle only.
+    def _prefetch_refused(ev):
+        f0 = coll["files"][ev[2][0]]
+        return any(not any(v["name"] == dn for v in f0["vars"]) for dn, _ in f0["dims"])
+    if any(ev[0] == "cons" and _prefetch_refused(ev) for ev in case["events"]):
+        ctx.count(("sessions-unmodelled", repr(case)), nontrivial=False, tag="process:prefetch-answered-with-an-error(oracle only)")
+    else:
+        corr.append(("sess-run (%s) (%s)" % (" ".join(str(c) for c in case["process"]), " ".join(evs)),
+                     "(" + " ".join(impl) + ")", dict(case)))
 
     # ---- direct oracle --------------------------------------------------------------------------
     ok = True
